@@ -117,7 +117,7 @@ func patchedAttributeCases(r *vh.Run, bufs []pac.Buf) {
 	}
 	n := 40
 	if vh.Thorough() {
-		n = 1000
+		n = 8000
 	}
 	type job struct {
 		st int32
